@@ -486,8 +486,8 @@ class FakeBoto:
 
     def _fault(self, idx):
         for f in self.plan.get("faults", ()):
-            if f.get("inv", 0) == self.inv and f["api"] == idx:
-                return f
+            if f.get("inv", 0) == self.inv and f["api"] <= idx < f["api"] + f.get("repeat", 1):
+                return f  # "repeat": the same error for that many consecutive calls (a throttled client that retries)
         return None
 
     def _garbage(self, idx):
